@@ -270,6 +270,7 @@ func (o *objectGoSlice) deleteIdx(i valueInt, throw bool) bool {
 type goslicePropIter struct {
 	o          *objectGoSlice
 	idx, limit int
+	lengthDone bool
 }
 
 func (i *goslicePropIter) next() (propIterItem, iterNextFunc) {
@@ -277,6 +278,10 @@ func (i *goslicePropIter) next() (propIterItem, iterNextFunc) {
 		name := strconv.Itoa(i.idx)
 		i.idx++
 		return propIterItem{name: newStringValue(name), enumerable: _ENUM_TRUE}, i.next
+	}
+	if !i.lengthDone {
+		i.lengthDone = true
+		return propIterItem{name: asciiString("length"), enumerable: _ENUM_FALSE}, i.next
 	}
 
 	return propIterItem{}, nil
@@ -289,9 +294,12 @@ func (o *objectGoSlice) iterateStringKeys() iterNextFunc {
 	}).next
 }
 
-func (o *objectGoSlice) stringKeys(_ bool, accum []Value) []Value {
+func (o *objectGoSlice) stringKeys(all bool, accum []Value) []Value {
 	for i := range *o.data {
 		accum = append(accum, asciiString(strconv.Itoa(i)))
+	}
+	if all {
+		accum = append(accum, asciiString("length"))
 	}
 
 	return accum
